@@ -217,6 +217,15 @@ func (ck *checker) repository(s string, j judged) {
 		{"another repository (name+x)", j.reg, j.repo + "x"},
 		{"another repository (name/x)", j.reg, j.repo + "/x"},
 	}
+	// bases whose repository is a proper string prefix of the reference's repository
+	// (a comparison by string prefix instead of by parts would let these through)
+	nfixed := len(bases)
+	if i := strings.IndexByte(j.repo, '/'); i > 0 {
+		bases = append(bases, struct{ kind, reg, repo string }{"another repository (first path component only)", j.reg, j.repo[:i]})
+	}
+	if len(j.repo) > 1 {
+		bases = append(bases, struct{ kind, reg, repo string }{"another repository (name without its last character)", j.reg, j.repo[:len(j.repo)-1]})
+	}
 	type form struct {
 		name, in string
 		fq       bool
@@ -242,6 +251,9 @@ func (ck *checker) repository(s string, j judged) {
 	for bi, b := range bases {
 		repo, err := remote.NewRepository(b.reg + "/" + b.repo)
 		c.Evals++
+		if err != nil && bi >= nfixed {
+			continue // the shortened name is not a grammatical repository itself
+		}
 		if err != nil {
 			if bi == 0 {
 				ck.violation("NewRepository refuses the registry/repository of a grammatical reference",
